@@ -171,7 +171,9 @@ def scan_template() -> typing.Dict[str, str]:
         facts['arrelem_quirk'] = 'true'
     else:
         ms = re.match(r"(?:# [^{]*?)?(\{%- if t\.element_type is IntegerType %\} _s_ = _np_\.asarray\(" + SRC + r"\) (?:# [^{]*? )?"
-                      r"if _s_\.size and _s_\.dtype\.kind in 'iufO' and not \(" + rmin + r" <= _s_\.min\(\) and _s_\.max\(\) <= " + rmax + r"\): "
+                      r"(?:if _s_\.size and _s_\.dtype\.kind in 'iufO' and not \(" + rmin + r" <= _s_\.min\(\) and _s_\.max\(\) <= " + rmax + r"\): "
+                      r"|(if _s_\.size and _s_\.dtype\.kind in 'iufO': _lo_, _hi_ = _s_\.min\(\), _s_\.max\(\) if _s_\.dtype\.kind != 'O': (?:# [^{]*? )?"
+                      r"_lo_, _hi_ = _lo_\.item\(\), _hi_\.item\(\) if not \(" + rmin + r" <= _lo_ and _hi_ <= " + rmax + r"\): ))"
                       r"raise ValueError\(f'.*?'\) \{%- endif %\} )?_a_ = _np_\.array\(" + SRC + ", " + NST + r"\)\.flatten\(\) "
                       r"(if not _a_\.size" + CMPCAP + r": (?:# [^{]*? )?raise ValueError\(f'.*?'\) )?"
                       r"\{%- if t\.element_type is FloatType and t\.element_type\.bit_length < (\d+) %\} "
@@ -183,10 +185,11 @@ def scan_template() -> typing.Dict[str, str]:
         if not ms:
             raise Closed('assign_array: element-checked slow path / element checks / final store not recognised')
         facts['t_arr_precheck'] = b(ms.group(1) is not None)
-        facts['t_len_slow'] = b(ms.group(2) is not None)
+        facts['precheck_exact'] = b(ms.group(2) is not None)     # bounds compared as Python numbers (.item()), not in the source dtype
+        facts['t_len_slow'] = b(ms.group(3) is not None)
         facts['arrelem_quirk'] = 'false'
-        facts['elem_float_below'] = ms.group(3)
-        facts['elem_std_widths'] = [int(x) for x in ms.group(4).replace(' ', '').split(',')]
+        facts['elem_float_below'] = ms.group(4)
+        facts['elem_std_widths'] = [int(x) for x in ms.group(5).replace(' ', '').split(',')]
 
     # ---- property setters -----------------------------------------------------------------------------------------
     acc = between(raw, '@{{ f|id }}.setter', '{% endfor -%}', 'setter')
@@ -314,6 +317,9 @@ def gen_pyobj() -> typing.Tuple[bool, str]:
     text += ('\n(* true: assign_array stores whatever NumPy converted (F-PY-ARRELEM); false: every branch binds a local that is checked\n'
              '   against the element range (integers of non-standard width on all paths, finite float16/32 values on the\n'
              '   conversion path) before it is stored *)\nDefinition arrelem_quirk_gen : bool := %s.\n' % facts['arrelem_quirk'])
+    text += ('\n(* true: the range check of the source compares Python numbers (exact, as int_leaf_ok of Gen/PyObj.v does); false: it compares\n'
+             '   in the dtype of the source array, where a bound may be rounded (F-PY-ARRWRAP-FPREC) or there is no such check *)\n'
+             'Definition arr_precheck_exact_gen : bool := %s.\n' % facts.get('precheck_exact', 'false'))
     gen.write_if_changed(OUT, text)
     return True, 'pick_width over %r; template facts %s arrelem_quirk=%s' % (widths, ' '.join('%s=%s' % (k[2:], facts[k]) for k in ORDER), facts['arrelem_quirk'])
 
@@ -327,7 +333,7 @@ SERVICE_J2 = 'src/nunavut/lang/py/templates/ServiceType.j2'
 
 def pin_c18model() -> typing.Tuple[bool, str]:
     """`_MODEL_` (the law restore (filter_pickle m) = m of Gen/PyModelAttr.v is about exactly this shape): shape pin on
-    filter_pickle (pickle.dumps protocol 4 -> gzip.compress mtime=0 -> base64.b85encode -> decode -> strip -> 100-character
+    filter_pickle (pickle.Pickler protocol 4 with the memoization-reset reducer of /repo 14e49e7 -> gzip.compress mtime=0 -> base64.b85encode -> decode -> strip -> 100-character
     string literals joined by newlines), and a fail-closed text check of the two templates: `_MODEL_ = _restore_constant_(
     {{ <type> | pickle | indent(8) }} )` for the data classes and the service class, and `_restore_constant_` =
     pickle.loads(gzip.decompress(base64.b85decode(s))).  -> Generated/Gen_Pin_c18model.v"""
